@@ -1,5 +1,248 @@
-// Modes that need a directory tree on disk (filled in later).
-use crate::Toks;
-pub fn run(mode: &str, _t: &mut Toks) -> Result<String, String> {
-    Err(format!("mode {mode} not implemented"))
+// Modes that need a directory tree on disk: inv (render node / inventory / discovery),
+// abs (abs_class_name through the hook).
+use crate::{canon_map, canon_strs, err_line, hex, p_yaml, Toks};
+use reclass_rs::verif_hooks as hooks;
+use reclass_rs::Reclass;
+use std::path::{Path, PathBuf};
+use std::sync::atomic::{AtomicUsize, Ordering};
+
+static COUNTER: AtomicUsize = AtomicUsize::new(0);
+
+pub fn scratch_dir() -> PathBuf {
+    let base = std::env::var("RV_SCRATCH").unwrap_or_else(|_| "/verif/.build/scratch".to_string());
+    let n = COUNTER.fetch_add(1, Ordering::SeqCst);
+    let d = PathBuf::from(base).join(format!("p{}-{}", std::process::id(), n));
+    let _ = std::fs::remove_dir_all(&d);
+    std::fs::create_dir_all(&d).expect("create scratch");
+    d
+}
+
+fn p_bool(t: &mut Toks) -> Result<bool, String> {
+    match t.next()? {
+        "T" => Ok(true),
+        "F" => Ok(false),
+        x => Err(format!("bool {x}")),
+    }
+}
+
+pub enum FileDoc {
+    Dir,
+    Doc(serde_yaml::Value),
+    Raw(String),
+    Symlink(String),
+}
+
+fn p_files(t: &mut Toks) -> Result<Vec<(Vec<String>, FileDoc)>, String> {
+    let n = t.num()?;
+    let mut out = vec![];
+    for _ in 0..n {
+        let path = t.strings()?;
+        // peek
+        let save = t.clone_pos();
+        let tok = t.next()?;
+        if tok == "X" {
+            out.push((path, FileDoc::Dir));
+        } else if let Some(h) = tok.strip_prefix("R") {
+            out.push((path, FileDoc::Raw(crate::unhex(h)?)));
+        } else if let Some(h) = tok.strip_prefix("Y") {
+            out.push((path, FileDoc::Symlink(crate::unhex(h)?)));
+        } else {
+            t.set_pos(save);
+            out.push((path, FileDoc::Doc(p_yaml(t)?)));
+        }
+    }
+    Ok(out)
+}
+
+pub fn write_tree(root: &Path, files: &[(Vec<String>, FileDoc)]) -> Result<(), String> {
+    std::fs::create_dir_all(root).map_err(|e| e.to_string())?;
+    for (path, doc) in files {
+        let mut p = root.to_path_buf();
+        for s in path {
+            p.push(s);
+        }
+        if let Some(parent) = p.parent() {
+            std::fs::create_dir_all(parent).map_err(|e| e.to_string())?;
+        }
+        match doc {
+            FileDoc::Dir => std::fs::create_dir_all(&p).map_err(|e| e.to_string())?,
+            FileDoc::Raw(s) => std::fs::write(&p, s).map_err(|e| e.to_string())?,
+            FileDoc::Symlink(target) => {
+                std::os::unix::fs::symlink(target, &p).map_err(|e| e.to_string())?
+            }
+            FileDoc::Doc(y) => {
+                let text = serde_yaml::to_string(y).map_err(|e| e.to_string())?;
+                let back: serde_yaml::Value =
+                    serde_yaml::from_str(&text).map_err(|e| format!("yaml roundtrip parse: {e}"))?;
+                if &back != y {
+                    return Err(format!("yaml roundtrip differs for {text:?}"));
+                }
+                std::fs::write(&p, text).map_err(|e| e.to_string())?;
+            }
+        }
+    }
+    Ok(())
+}
+
+fn canon_nodeinfo_parts(
+    node: &str,
+    name: &str,
+    uri: &str,
+    env: &str,
+    apps: &[String],
+    classes: &[String],
+    params: &reclass_rs::types::Mapping,
+    nodes_root: &str,
+) -> String {
+    let uri = uri.replace(nodes_root, "<NODES>");
+    let mut o = format!(
+        "S{} S{} S{} S{} A {} C {} P ",
+        hex(node),
+        hex(name),
+        hex(&uri),
+        hex(env),
+        canon_strs(apps),
+        canon_strs(classes)
+    );
+    canon_map(params, false, &mut o);
+    o
+}
+
+fn canon_index(ix: &std::collections::HashMap<String, Vec<String>>) -> String {
+    let mut keys: Vec<&String> = ix.keys().collect();
+    keys.sort();
+    let mut o = String::new();
+    for k in keys {
+        o.push_str(&format!(" S{} {}", hex(k), canon_strs(&ix[k])));
+    }
+    o
+}
+
+pub struct InvCase {
+    pub dir: PathBuf,
+    pub reclass: anyhow::Result<Reclass>,
+    pub nodes_root: String,
+}
+
+pub fn setup_inv(t: &mut Toks) -> Result<InvCase, String> {
+    let ignore = p_bool(t)?;
+    let compose = p_bool(t)?;
+    let dots = p_bool(t)?;
+    let patterns = t.strings()?;
+    let _matches = t.strings()?;
+    let cfiles = p_files(t)?;
+    let nfiles = p_files(t)?;
+    let dir = scratch_dir();
+    write_tree(&dir.join("classes"), &cfiles)?;
+    write_tree(&dir.join("nodes"), &nfiles)?;
+    let inv = dir.to_str().unwrap().to_string();
+    let nodes_root = format!("{inv}/nodes");
+    let reclass = (|| -> anyhow::Result<Reclass> {
+        let mut cfg = hooks::Config::new(Some(&inv), None, None, Some(ignore))?;
+        cfg.compose_node_name = compose;
+        if dots {
+            cfg.compatflags.insert(hooks::CompatFlag::ComposeNodeNameLiteralDots);
+        }
+        cfg.set_ignore_class_notfound_regexp(patterns)?;
+        Reclass::new_from_config(cfg)
+    })();
+    Ok(InvCase {
+        dir,
+        reclass,
+        nodes_root,
+    })
+}
+
+pub fn run(mode: &str, t: &mut Toks) -> Result<String, String> {
+    match mode {
+        "abs" => {
+            let loc = t.strings()?;
+            let cls = t.string()?;
+            let l = if loc.is_empty() {
+                None
+            } else {
+                Some(PathBuf::from(loc.join("/")))
+            };
+            Ok(match hooks::Node::verif_abs_class_name(l, &cls) {
+                Ok(s) => format!("ok S{}", hex(&s)),
+                Err(e) => err_line(&format!("{e}")),
+            })
+        }
+        "inv" => {
+            let case = setup_inv(t)?;
+            let op = t.next()?.to_string();
+            let res = (|| -> Result<String, String> {
+                let r = match &case.reclass {
+                    Ok(r) => r,
+                    Err(e) => return Ok(err_line(&format!("{e}"))),
+                };
+                match op.as_str() {
+                    "node" => {
+                        let name = t.string()?;
+                        Ok(match r.render_node(&name) {
+                            Ok(i) => format!(
+                                "ok {}",
+                                canon_nodeinfo_parts(
+                                    &i.reclass.node,
+                                    &i.reclass.name,
+                                    &i.reclass.uri,
+                                    &i.reclass.environment,
+                                    &i.applications,
+                                    &i.classes,
+                                    &i.parameters,
+                                    &case.nodes_root
+                                )
+                            ),
+                            Err(e) => err_line(&format!("{e}")),
+                        })
+                    }
+                    "all" => Ok(match r.render_inventory() {
+                        Ok(inv) => {
+                            let (apps, classes, nodes) = inv.verif_parts();
+                            let mut names: Vec<&String> = nodes.keys().collect();
+                            names.sort();
+                            let mut o = format!(
+                                "ok A{} C{} N {}",
+                                canon_index(apps),
+                                canon_index(classes),
+                                names.len()
+                            );
+                            for n in names {
+                                let i = &nodes[n];
+                                o.push_str(" | ");
+                                o.push_str(&canon_nodeinfo_parts(
+                                    &i.reclass.node,
+                                    &i.reclass.name,
+                                    &i.reclass.uri,
+                                    &i.reclass.environment,
+                                    &i.applications,
+                                    &i.classes,
+                                    &i.parameters,
+                                    &case.nodes_root,
+                                ));
+                            }
+                            o
+                        }
+                        Err(e) => err_line(&format!("{e}")),
+                    }),
+                    "names" => {
+                        let mut o = String::from("ok N");
+                        let to_ix = |m: std::collections::HashMap<String, PathBuf>| {
+                            m.into_iter()
+                                .map(|(k, v)| (k, vec![v.to_str().unwrap().to_string()]))
+                                .collect::<std::collections::HashMap<String, Vec<String>>>()
+                        };
+                        o.push_str(&canon_index(&to_ix(r.nodes().map_err(|e| e.to_string())?)));
+                        o.push_str(" C");
+                        o.push_str(&canon_index(&to_ix(r.classes().map_err(|e| e.to_string())?)));
+                        Ok(o)
+                    }
+                    _ => Err(format!("bad op {op}")),
+                }
+            })();
+            let _ = std::fs::remove_dir_all(&case.dir);
+            res
+        }
+        _ => Err(format!("mode {mode} not implemented")),
+    }
 }
